@@ -2,6 +2,7 @@ package mon
 
 import (
 	"fmt"
+	"strings"
 
 	"github.com/vektah/gqlparser/v2"
 	"github.com/vektah/gqlparser/v2/ast"
@@ -32,7 +33,7 @@ func init() {
 		Check:           c09Check,
 		DistinctClasses: []string{"link-class"},
 		MinEvaluations:  func(tier string) int64 { return 2000 },
-		RequiredCounts:  []string{"documents_linked", "documents_relinked_to_second_schema", "documents_linked_under_rule_subset", "links:Field.Definition", "links:Value.ExpectedType(list-item)", "links:Value.ExpectedType(input-field)", "links:Value.VariableDefinition", "links:Directive.Definition", "links:FragmentSpread.Definition"},
+		RequiredCounts:  []string{"documents_linked", "documents_relinked_to_second_schema", "documents_linked_under_rule_subset", "deep_chain_documents", "links:Field.Definition", "links:Value.ExpectedType(list-item)", "links:Value.ExpectedType(input-field)", "links:Value.VariableDefinition", "links:Directive.Definition", "links:FragmentSpread.Definition"},
 	})
 }
 
@@ -56,6 +57,32 @@ func c09KeyCases(x *core.Ctx, r *core.Rand, n int) {
 	}
 	mg := tsys.Merge(model.FromSchemaAST(sd).Items)
 	rn := &model.Renderer{}
+	// chains far deeper than any sensible guard constant, directly and through a chain of fragments: every level is linked
+	for k := 0; k < 3; k++ {
+		depth := 100 + r.Intn(500)
+		var b strings.Builder
+		if depth%2 == 0 {
+			b.WriteString("query Deep($v: Int) { user { ")
+		} else {
+			b.WriteString("query Deep { user { ")
+		}
+		for d := 0; d < depth; d++ {
+			if d%2 == 0 {
+				b.WriteString("profile { ")
+			} else {
+				b.WriteString("user { ")
+			}
+		}
+		if depth%2 == 0 {
+			b.WriteString("f(a_b: $v) @d(a_b: $v) ")
+		} else {
+			b.WriteString("f(a_b: 1.5) id ")
+		}
+		b.WriteString(strings.Repeat("} ", depth+2))
+		dc := core.NewCase("pair", "schema", c09KeySchema, "doc", b.String(), "expect", "valid")
+		x.Do(dc, func() { c09Check(x, dc) })
+		x.Count("deep_chain_documents")
+	}
 	for j := 0; j < n; j++ {
 		g := dgen.New(r, mg, &dgen.Opts{MaxDepth: 2 + r.Intn(3), MaxOps: 1 + r.Intn(2), DeepValues: j%2 == 0})
 		doc := g.Doc()
@@ -347,6 +374,9 @@ func c09Check(x *core.Ctx, c *core.Case) {
 	errs := validator.Validate(schema, doc)
 	if len(errs) > 0 {
 		x.Count("skipped:document-rejected")
+		if strings.HasPrefix(c.Get("doc"), "query Deep") {
+			x.Violate("deep-chain-rejected("+errs[0].Rule+")", errs[0].Message, "accepted: a chain of existing fields with valid arguments")
+		}
 		return
 	}
 	x.Count("documents_linked")
